@@ -281,7 +281,16 @@ theorem appendOne_ok {c : Cfg α} {M : Mat n α} {d : Fin n → Bool} (hd : Mask
       subst hq
       have := orthPair_ok (c := c) db hdb (maskOff d xnew, maskOff d (M *ᵥ xnew))
         ⟨mulVec_maskOff hd xnew, fun i hi => by simp [maskOff, hi]⟩
-      exact this
+      refine ⟨?_, fun i hi => ?_⟩
+      · show M *ᵥ (fun i => c.scale (ipSel c d (orthPair c d db (maskOff d xnew, maskOff d (M *ᵥ xnew))).2
+            (orthPair c d db (maskOff d xnew, maskOff d (M *ᵥ xnew))).2) *
+              (orthPair c d db (maskOff d xnew, maskOff d (M *ᵥ xnew))).1 i) = _
+        rw [← this.1]
+        exact Matrix.mulVec_smul M (c.scale _) (orthPair c d db (maskOff d xnew, maskOff d (M *ᵥ xnew))).1
+      · show _ * (orthPair c d db (maskOff d xnew, maskOff d (M *ᵥ xnew))).1 i = 0 ∧
+          _ * (orthPair c d db (maskOff d xnew, maskOff d (M *ᵥ xnew))).2 i = 0
+        rw [(this.2 i hi).1, (this.2 i hi).2]
+        simp
   · exact hdb
 
 theorem appendCols_ok {k : Nat} {c : Cfg α} {M : Mat n α} {d : Fin n → Bool} (hd : MaskOK M d) (rc : Bool)
